@@ -1234,6 +1234,10 @@ class Exec:
                 return z3.Not(x) if z3.is_bool(x) else ~x
             if op == 'Neg':
                 if self.p.is_float(self.operand_ty(fn, a)):
+                    if self.models.FLOAT['mode'] == 'err':
+                        r = self.models.float_err_unop(self, 'neg', x)
+                        if r is not None:
+                            return r
                     return x ^ BV(1 << (x.size() - 1), x.size())
                 return -x
             if op == 'PtrMetadata':
